@@ -412,6 +412,9 @@ func g10bCompareComponents(tag string, data []byte, o *common.BlockTransactionOf
 	if len(txs) != len(o.Transactions) {
 		return ""
 	}
+	// a script key that matches no decoded script is reported only if nothing else is
+	// wrong in the whole block (it is the recorded finding class `script-key`)
+	scriptKey := ""
 	for i, tx := range txs {
 		loc := o.Transactions[i]
 		ws := tx.Witnesses()
@@ -470,11 +473,11 @@ func g10bCompareComponents(tag string, data []byte, o *common.BlockTransactionOf
 				if sliceRange(data, r) == nil {
 					return fmt.Sprintf("%s:tx%d.script-range", tag, i)
 				}
-				if !have[h] {
-					return fmt.Sprintf("%s:tx%d.script-key", tag, i)
+				if !have[h] && scriptKey == "" {
+					scriptKey = fmt.Sprintf("%s:tx%d.script-key", tag, i)
 				}
 			}
 		}
 	}
-	return ""
+	return scriptKey
 }
